@@ -35,7 +35,7 @@ def run(tier):
     g = tlc("GenNames", "GenNames.cfg", cwd=sd, workers=NPROC)
     tlc_must_pass(g, "GenNames")
     gen = printed_json(g, "CASE")
-    if len(gen) != 5 * 4 * 3 * 4 * 6 * 4:
+    if len(gen) != 5 * 6 * 3 * 4 * 6 * 4:
         raise Broken("GenNames produced %d cases" % len(gen))
     gen.sort(key=lambda c: json.dumps(c, sort_keys=True))
     rnd = random.Random(seed())
@@ -73,7 +73,12 @@ def run(tier):
                       "dims": (nv, nalg, nlog, nobj)})
     runs = drv.run_cases(exe, PID, cases)
     recs = []
+    refused = 0
     for c, r in zip(cases, runs):
+        if not r["hang"] and r["sol"] and (r["sol"]["code"] or 0) >= 500 and r["sol"]["msg"].strip() and \
+                not any(e["e"] == "FinishProblemModificationPhase" for e in r["rec"]):
+            refused += 1          # a diagnosed refusal (e.g. general SOS2 under a linear-only solver): no names to judge
+            continue
         if r["hang"] or r["rc"] != 0 or not any(e["e"] == "FinishProblemModificationPhase" for e in r["rec"]):
             recs.append({"e": "Crash", "id": c["id"], "rc": r["rc"], "msg": ((r["sol"] or {}).get("msg") or r["stderr"])[:200]})
             continue
@@ -125,7 +130,7 @@ def run(tier):
     write_evidence(PID, tier, {
         "states": g.distinct + sum(r.distinct for r in res), "transitions": g.generated + sum(r.generated for r in res),
         "traces_validated_against_impl": len(recs), "samples": [cases[0]["a"], cases[-1]["a"]],
-        "evaluations": len(recs), "runs_with_names_active": nactive, "rejected_runs": nbad, "generated_cases_total": len(gen),
+        "evaluations": len(recs), "refused_conversions": refused, "runs_with_names_active": nactive, "rejected_runs": nbad, "generated_cases_total": len(gen),
         "exhaustive": tier == "thorough",
         "explanation": "TLC enumerates models (row kinds, extra nonlinear/logical constraints => multi-level conversions, slack/linear-only range handling) x cvt:names 0..3 x .col/.row present/absent/short/CRLF/only one of them x adversarial original name sets (names that look like derived, generic or slack names); the names received by the ModelAPI in the real driver are validated by TLC: non-empty, originals faithful, derived names prefixed by an original name, pairwise distinct per class",
         "violations_new": nnew,
